@@ -487,3 +487,13 @@ func (s *Sess) viewElemAddr(v *View, idx string) *Addr {
 	}
 	return v.Origin.with(Step{Kind: stSeq, Idx: i, T: v.Origin.elemType()})
 }
+
+// immutableKey: is k the heap of a field of a struct type declared immutable?
+func (s *Sess) immutableKey(k string) bool {
+	for _, nt := range s.g.immutableTypes() {
+		if strings.HasPrefix(k, "H_"+s.sortOf(nt)+"_") {
+			return true
+		}
+	}
+	return false
+}
